@@ -532,7 +532,7 @@ class G:
                 r = {"kind": "def", "id": rid, "name": None, "target": None, "alias": False}
                 if self.b(1, 3):
                     r["target"] = {"type": self.pick(["actor", "object", "performer"]), "val": self.ctx_target()}
-            if rid > 0 and self.b(1, 8) and not self.flat:
+            if rid > 0 and self.b(1, 8):
                 r["alias"] = True
                 r["body"] = []
             else:
@@ -749,7 +749,7 @@ def is_flat(prog) -> bool:
 
     for r in prog["routines"]:
         if r.get("alias"):
-            return False
+            continue  # shares the (flat) body of the routine before it
         body = r["body"]
         if not body or not (body[-1]["k"] == "ctl" and body[-1]["v"] in ("return", "end", "hold")):
             return False
